@@ -104,6 +104,12 @@ Definition entry (sel : Z) (toks : list Z) : list Z :=
                            let s := fadd a b in
                            tag 1 ++ eFl s ++ tag 2 ++ eFl (fsub s b) ++ tag 3 ++ eBool (fle 1 s s)
           | None => bad_input end
+  (* clone, mutate the clone, observe the source: source after clone.Add(o), after clone.Sub(o), after a
+     TaskInfo.Clone() snapshot was added to; then the two mutated clones *)
+  | 15 => match run_dec (dPair dDresB dDresB) toks with
+          | Some (d, o) => tag 1 ++ eDres d ++ tag 2 ++ eDres d ++ tag 3 ++ eDres d ++
+                           tag 4 ++ eDres (dra_add d (Some o)) ++ tag 5 ++ eDres (dra_sub d (Some o))
+          | None => bad_input end
   | 10 => match run_dec (let* e := dZ in let* r := dRes in let* rr := dRes in let* q := dRes in ret (e, r, rr, q)) toks with
           | Some (e, r, rr, q) => res_all e r rr q
           | None => bad_input end
@@ -128,6 +134,12 @@ Definition entry (sel : Z) (toks : list Z) : list Z :=
   | 114 => match run_dec (let* a := dBool in let* b := dBool in let* c := dBool in let* d := dBool in
                           let* e := dBool in ret (a, b, c, d, e)) toks with
            | Some (a, b, c, d, e) => eBool (law_partial a b c d e) | None => bad_input end
+  | 119 => match run_dec (let* r := dRes in let* x := dRes in let* rs := dRes in let* rb := dRes in
+                          ret (r, x, rs, rb)) toks with
+           | Some (r, x, rs, rb) => eBool (law_sub_add r x rs rb) | None => bad_input end
+  | 118 => match run_dec (let* d := dDresB in let* b := dDres in let* a1 := dDres in let* a2 := dDres in
+                          let* a3 := dDres in ret (d, b, a1, a2, a3)) toks with
+           | Some (d, b, a1, a2, a3) => eBool (law_clone_independent d b a1 a2 a3) | None => bad_input end
   | 117 => match run_dec (let* r := dRes in let* rr := dRes in let* mn := dRes in ret (r, rr, mn)) toks with
            | Some (r, rr, mn) => eBool (law_min_inf r rr mn) | None => bad_input end
   | 116 => match run_dec (dPair dBool dBool) toks with
